@@ -668,7 +668,7 @@ def run_plan(plan, sched_seed=None, sched_replay=None):
                                   if role == 'client'
                                   else asyncssh.SSHServerConnection))
 
-    if out_bytes > 16 * hostile_in + 65536 + 160 * plan.get('app_write', 0):
+    if out_bytes > 16 * hostile_in + 65536 + 400 * plan.get('app_write', 0):
         world.violation('amplification', 'endpoint wrote %d bytes for %d '
                         'hostile input bytes' % (out_bytes, hostile_in))
 
